@@ -21,6 +21,7 @@ type reuseStep struct {
 	Defaults       map[string]any `json:"defaults"` // values.yaml of the chart version used
 	Vals           map[string]any `json:"vals"`     // user-supplied values of this step
 	Version        int            `json:"version"`  // rollback target (0 = previous)
+	Fail           bool           `json:"fail"`     // the resource phase of this upgrade fails: the revision is recorded as failed
 }
 
 const probeTemplate = "apiVersion: v1\nkind: ConfigMap\nmetadata:\n  name: probe\ndata:\n  values: {{ toJson .Values | quote }}\n"
@@ -58,7 +59,7 @@ func orEmptyMap(m map[string]any) map[string]any {
 func corrReuse(seed uint64, n int, tier string, out string, replay string) {
 	m := StartModel()
 	defer m.Close()
-	rep := NewReport("C13", "reuse", seed, "case = chain of an install and 2-6 upgrades / rollbacks through the real action package (Secret and memory storage), each upgrade with its own flag combination (none, reset-values, reuse-values, reset-then-reuse-values, and combinations), its own user values (random trees up to depth 4 with nulls, empty maps, lists, type changes; often empty) and often changed chart defaults; after every step the stored Release.Config, the stored chart's values and what a probe template saw as .Values are compared with the Lean model chained over the same steps, and the simple modes (reset, default, rollback) are also checked directly; non-trivial = the chain has at least one reuse/reset-then-reuse step with non-empty previous and new values; distinct = hash of the chain")
+	rep := NewReport("C13", "reuse", seed, "case = chain of an install and 2-6 upgrades / rollbacks through the real action package (Secret and memory storage), each upgrade with its own flag combination (none, reset-values, reuse-values, reset-then-reuse-values, and combinations), its own user values (random trees up to depth 4 with nulls, empty maps, lists, type changes; often empty) and often changed chart defaults, about one upgrade in six failing in its resource phase (the revision is recorded as failed and later upgrades build on the deployed one); after every step the stored Release.Config, the stored chart's values and what a probe template saw as .Values are compared with the Lean model chained over the same steps, and the simple modes (reset, default, rollback) are also checked directly; non-trivial = the chain has at least one reuse/reset-then-reuse step with non-empty previous and new values; distinct = hash of the chain")
 	for _, id := range caseSeq("reuse", seed, n) {
 		reuseChain(m, rep, NewRng(id.Seed, uint64(id.Index)), id.Seed, id.Index)
 	}
@@ -68,6 +69,17 @@ func corrReuse(seed uint64, n int, tier string, out string, replay string) {
 type modelRev struct {
 	ChartValues map[string]any
 	Config      map[string]any
+	Deployed    bool
+}
+
+// curIdx: the revision an upgrade builds on: the deployed one, else the newest
+func curIdx(revs []modelRev) int {
+	for i := len(revs) - 1; i >= 0; i-- {
+		if revs[i].Deployed {
+			return i
+		}
+	}
+	return len(revs) - 1
 }
 
 func revJSON(r modelRev) map[string]any {
@@ -109,6 +121,7 @@ func reuseChain(m *Model, rep *Report, r *Rng, seed uint64, idx int) {
 			if r.Chance(50) {
 				defaults = genTree(r, 0, valKeys)
 			}
+			st.Fail = r.Chance(18)
 		}
 		if st.Kind != "rollback" {
 			st.Defaults = deepCopyMap(defaults)
@@ -121,6 +134,9 @@ func reuseChain(m *Model, rep *Report, r *Rng, seed uint64, idx int) {
 		hist = append(hist, st)
 		cs := map[string]any{"backend": backend, "history": hist}
 		w.revive()
+		if st.Fail {
+			w.wplan.resources = "fail"
+		}
 		cfg := w.cfg()
 		var err error
 		var rel *release.Release
@@ -154,14 +170,14 @@ func reuseChain(m *Model, rep *Report, r *Rng, seed uint64, idx int) {
 			wantEff = m.Query(map[string]any{"op": "reuseEffective", "rev": revJSON(want)})["effective"]
 		case "upgrade":
 			mr := m.Query(map[string]any{"op": "reuseOp", "reset": st.Reset, "reuse": st.Reuse, "resetThenReuse": st.ResetThenReuse,
-				"cur": revJSON(revs[len(revs)-1]), "newChart": map[string]any{"name": "app", "values": orEmptyMap(st.Defaults), "deps": []any{}}, "newVals": orEmptyMap(st.Vals)})
+				"cur": revJSON(revs[curIdx(revs)]), "newChart": map[string]any{"name": "app", "values": orEmptyMap(st.Defaults), "deps": []any{}}, "newVals": orEmptyMap(st.Vals)})
 			if e, ok := mr["err"].(string); ok {
 				modelErr = e
 			} else {
 				want = modelRev{ChartValues: mr["chartValues"].(map[string]any), Config: mr["config"].(map[string]any)}
 				wantEff = mr["effective"]
 			}
-			prev := revs[len(revs)-1]
+			prev := revs[curIdx(revs)]
 			if (st.Reuse || st.ResetThenReuse) && !st.Reset && len(prev.Config) > 0 && len(st.Vals) > 0 {
 				nontrivial = true
 			}
@@ -178,6 +194,9 @@ func reuseChain(m *Model, rep *Report, r *Rng, seed uint64, idx int) {
 			if _, bad := we["$err"]; bad {
 				modelErr = fmt.Sprint(we["$err"])
 			}
+		}
+		if st.Fail && err != nil && modelErr == "" {
+			err = nil // the injected failure: the revision is recorded (as failed) all the same
 		}
 		if (err != nil) != (modelErr != "") {
 			rep.Issue(Issue{Kind: "disagreement", Fingerprint: "C13:model:outcome:" + st.Kind, What: fmt.Sprintf("%s: err=%v, model error=%q", st.Kind, err, modelErr), Case: cs, Seed: seed, Index: idx})
@@ -220,7 +239,7 @@ func reuseChain(m *Model, rep *Report, r *Rng, seed uint64, idx int) {
 				rep.Issue(Issue{Kind: "monitor", Fingerprint: "C13:reset-not-new-values", What: "reset-values: the recorded values are not the new values alone", Case: cs, Impl: gotCfg, Seed: seed, Index: idx})
 			}
 		case st.Kind == "upgrade" && !st.Reuse && !st.ResetThenReuse:
-			prev := orEmptyMap(implRevs[len(implRevs)-1].Config)
+			prev := orEmptyMap(implRevs[curIdx(revs)].Config)
 			exp := orEmptyMap(st.Vals)
 			if len(st.Vals) == 0 && len(prev) > 0 {
 				exp = prev
@@ -230,7 +249,7 @@ func reuseChain(m *Model, rep *Report, r *Rng, seed uint64, idx int) {
 			}
 		case st.Kind == "upgrade":
 			// every non-null scalar the user gave at top level is recorded; untouched top-level keys are kept
-			prev := orEmptyMap(implRevs[len(implRevs)-1].Config)
+			prev := orEmptyMap(implRevs[curIdx(revs)].Config)
 			for kk, v := range st.Vals {
 				if _, isMap := v.(map[string]any); !isMap && v != nil && !jsonEqual(gotCfg[kk], v) {
 					rep.Issue(Issue{Kind: "monitor", Fingerprint: "C13:reuse-new-value-lost", What: "reuse: the new value of " + kk + " is not what was recorded", Case: cs, Impl: gotCfg, Seed: seed, Index: idx})
@@ -253,7 +272,12 @@ func reuseChain(m *Model, rep *Report, r *Rng, seed uint64, idx int) {
 		// snapshot (deep copy: the memory driver hands out shared objects)
 		snap := &release.Release{Config: deepCopyMap(stored.Config), Chart: &chart.Chart{Values: deepCopyMap(stored.Chart.Values)}}
 		implRevs = append(implRevs, snap)
-		revs = append(revs, modelRev{ChartValues: deepCopyMap(want.ChartValues), Config: deepCopyMap(want.Config)})
+		if !st.Fail {
+			for i := range revs {
+				revs[i].Deployed = false
+			}
+		}
+		revs = append(revs, modelRev{ChartValues: deepCopyMap(want.ChartValues), Config: deepCopyMap(want.Config), Deployed: !st.Fail})
 		// earlier revisions must not have been changed by this step (aliasing)
 		if hs, herr := cfg.Releases.History("app"); herr == nil {
 			for _, h := range hs {
